@@ -40,6 +40,11 @@ impl NdarrayValue {
 
     /// Set values at the specified indices
     fn set_value(&mut self, indices: &[usize], value: Value) -> Result<()> {
+        // Date and time values are stored as their i64 ticks (see `new`)
+        let value = match value {
+            Value::DateTime64(_, v) | Value::TimeDelta64(_, v) => Value::I64(v),
+            value => value,
+        };
         match (self, value) {
             (NdarrayValue::F64(arr), Value::ScalarF64(v)) => {
                 arr[IxDyn(indices)] = v;
@@ -54,6 +59,9 @@ impl NdarrayValue {
                 arr[IxDyn(indices)] = v;
             }
             (NdarrayValue::U64(arr), Value::ScalarU64(v)) => {
+                arr[IxDyn(indices)] = v;
+            }
+            (NdarrayValue::String(arr), Value::ScalarString(v)) => {
                 arr[IxDyn(indices)] = v;
             }
             (NdarrayValue::F64(arr), Value::F64(v)) => {
@@ -111,6 +119,18 @@ impl NdarrayValue {
                     let mut view = arr.slice_mut(ndarray::s![indices[0], indices[1], ..]);
                     for (i, val) in v.iter().enumerate() {
                         view[i] = *val;
+                    }
+                } else {
+                    return Err(anyhow::anyhow!(
+                        "Vector assignment with complex indices not implemented"
+                    ));
+                }
+            }
+            (NdarrayValue::String(arr), Value::Strings(v)) => {
+                if indices.len() == 2 {
+                    let mut view = arr.slice_mut(ndarray::s![indices[0], indices[1], ..]);
+                    for (i, val) in v.into_iter().enumerate() {
+                        view[i] = val;
                     }
                 } else {
                     return Err(anyhow::anyhow!(
